@@ -18,7 +18,8 @@ type Mutant struct {
 	File            string `json:"file"` // relative to the repository root
 	Find            string `json:"find"`
 	Replace         string `json:"replace"`
-	ExpectRule      string `json:"expect_rule"`
+	Append          string `json:"append,omitempty"` // optional text appended to the file (new declarations)
+	ExpectRule     string `json:"expect_rule"`
 	ExpectConstruct string `json:"expect_construct,omitempty"`
 	Why             string `json:"why,omitempty"`
 }
@@ -64,6 +65,7 @@ func runMutantChild(spec *propSpec, repo, verif string, idx int) int {
 		return 0
 	}
 	mod := bytes.Replace(src, []byte(m.Find), []byte(m.Replace), 1)
+	mod = append(mod, []byte(m.Append)...)
 	p, err := Load(LoadOpts{Root: repo, GOOS: "linux", GOARCH: "amd64", Full: spec.NeedSSA, Overlay: map[string][]byte{abs: mod}})
 	if err != nil {
 		out, _ := json.Marshal(mutantResult{Name: m.Name, Status: "does-not-compile", Detail: err.Error()})
@@ -110,6 +112,25 @@ func runMutantChild(spec *propSpec, repo, verif string, idx int) int {
 	return 0
 }
 
+// resolvedOnPrimary: the unresolved obligation o of a secondary platform concerns an anchor that the primary platform
+// (linux/amd64) resolved under the same rule (its constructs start with the anchor's name), or a vacuity floor that
+// the primary platform meets (floors are the counts confirmed by hand on the primary platform).
+func resolvedOnPrimary(primary []Obligation, o Obligation) bool {
+	floorFailed := false
+	for _, q := range primary {
+		if q.Rule != o.Rule {
+			continue
+		}
+		if q.Construct == "vacuity-floor" {
+			floorFailed = true
+		}
+		if o.Construct != "vacuity-floor" && q.Verdict != "unresolved" && strings.HasPrefix(q.Construct, o.Construct) {
+			return true
+		}
+	}
+	return o.Construct == "vacuity-floor" && !floorFailed
+}
+
 // runThorough: other platforms + mutant controls.
 func runThorough(c *Ctx, spec *propSpec, repo, verif string, extra map[string]any) {
 	// 1. the same rules on other GOOS/GOARCH so that build-tagged files are seen
@@ -129,8 +150,14 @@ func runThorough(c *Ctx, spec *propSpec, repo, verif string, extra map[string]an
 		for _, o := range c.Obs {
 			have[o.Key()+"|"+o.Verdict] = true
 		}
-		added := 0
+		added, absent := 0, 0
 		for _, o := range c2.Obs {
+			// an anchor that is resolved on the primary platform and absent here is excluded by build constraints on this
+			// platform (e.g. the mmap pack reader is darwin || linux): nothing to decide here, not a failure
+			if o.Verdict == "unresolved" && resolvedOnPrimary(c.Obs, o) {
+				absent++
+				continue
+			}
 			if !have[o.Key()+"|"+o.Verdict] {
 				o.Detail = "[" + pl.os + "/" + pl.arch + "] " + o.Detail
 				c.Obs = append(c.Obs, o)
@@ -140,7 +167,7 @@ func runThorough(c *Ctx, spec *propSpec, repo, verif string, extra map[string]an
 		for f := range c2.funcsSet {
 			c.funcsSet[f] = true
 		}
-		platRes = append(platRes, fmt.Sprintf("%s/%s: %d packages, %d obligations, %d not seen on linux/amd64", pl.os, pl.arch, len(p2.Pkgs), len(c2.Obs), added))
+		platRes = append(platRes, fmt.Sprintf("%s/%s: %d packages, %d obligations, %d not seen on linux/amd64, %d anchors excluded by build constraints", pl.os, pl.arch, len(p2.Pkgs), len(c2.Obs), added, absent))
 	}
 	extra["platforms"] = platRes
 
